@@ -156,6 +156,10 @@ pub fn compact(cells: &[u64]) -> Result<Vec<u64>, String> {
         }
 
         current_cells = result;
+        // Parents do not keep the ID order (a face sorts below its own quintants) and a parent may
+        // already be present (input holding a cell together with all of its children)
+        current_cells.sort_unstable();
+        current_cells.dedup();
     }
 
     Ok(current_cells)
